@@ -22,7 +22,9 @@ CONSTANTS AtomChoice,   \* "all" | "reduced"
           MaxLen,       \* number of token atoms in a case
           SepChoice,    \* "all": every separator choice; "basic": nothing, space, newline, comment; "none": juxtaposition only (cases stop where a separator is needed)
           EmitMin,      \* cases with fewer token atoms are not written
-          WithFinal     \* TRUE: end-of-input atoms may close a case
+          WithFinal,    \* TRUE: end-of-input atoms may close a case
+          AssertRef     \* TRUE: RefAgrees is asserted on every case as it is written (simulation mode writes the successors
+                        \* it does not visit; there the INVARIANT alone would not see them)
 
 Ref == INSTANCE CssRef
 
@@ -50,6 +52,18 @@ Concat(s, i, j) == IF i > j THEN <<>> ELSE Cls[s[i]] \o Concat(s, i + 1, j)
 Safe(s, x) == /\ Len(s) > 0 /\ ~IsSep(s[Len(s)]) => ~NeedsSep(s[Len(s)], x)
               /\ \A p \in RunStart(s, Len(s))..Len(s) : ~Merges(s[p], Concat(s, p + 1, Len(s)) \o Cls[x])
 
+\* ------------------------------------------------------------------ the two formalisations against each other
+Text(s) == Concat(s, 1, Len(s))
+RECURSIVE Spans(_, _, _)
+Spans(s, i, at) == IF i > Len(s) THEN <<>>
+                   ELSE <<[k |-> Kind[s[i]], lo |-> at, hi |-> at + Len(Cls[s[i]])]>> \o Spans(s, i + 1, at + Len(Cls[s[i]]))
+Expected(s) == Spans(s, 1, 1)
+RefOK(s) == Ref!Tokens(Text(s)) = Expected(s)
+RefAgrees == RefOK(seq)
+\* for every pair of atoms (visited once, in the state where a comment separates them): Merges is exact
+Tight == (Len(seq) = 3 /\ seq[2] = "sep.cmt" /\ Kind[seq[1]] # "BadString")
+            => (Merges(seq[1], Cls[seq[3]]) <=> Ref!Tokens(Cls[seq[1]] \o Cls[seq[3]]) # Expected(<<seq[1], seq[3]>>))
+
 Closed(s) == Len(s) > 0 /\ s[Len(s)] \in FinalNames
 Extend(s, sep, x) ==
   LET t == IF sep = "none" THEN Append(s, x) ELSE s \o <<sep, x>> IN
@@ -64,17 +78,8 @@ Next ==
        /\ sep = "none" => Safe(seq, x)
        /\ \E t \in Extend(seq, sep, x) :
             /\ seq' = t
-            /\ NAtoms(t) >= EmitMin => Write(t)
+            /\ NAtoms(t) >= EmitMin => /\ AssertRef => Assert(RefOK(t), <<"CssRef disagrees with the generator on", t>>)
+                                       /\ Write(t)
 Spec == Init /\ [][Next]_seq
 
-\* ------------------------------------------------------------------ the two formalisations against each other
-Text(s) == Concat(s, 1, Len(s))
-RECURSIVE Spans(_, _, _)
-Spans(s, i, at) == IF i > Len(s) THEN <<>>
-                   ELSE <<[k |-> Kind[s[i]], lo |-> at, hi |-> at + Len(Cls[s[i]])]>> \o Spans(s, i + 1, at + Len(Cls[s[i]]))
-Expected(s) == Spans(s, 1, 1)
-RefAgrees == Ref!Tokens(Text(seq)) = Expected(seq)
-\* for every pair of atoms (visited once, in the state where a comment separates them): Merges is exact
-Tight == (Len(seq) = 3 /\ seq[2] = "sep.cmt" /\ Kind[seq[1]] # "BadString")
-            => (Merges(seq[1], Cls[seq[3]]) <=> Ref!Tokens(Cls[seq[1]] \o Cls[seq[3]]) # Expected(<<seq[1], seq[3]>>))
 =============================================================================
